@@ -230,6 +230,10 @@ def prepare_inputs(im, bkg, rms, variant='f64-C'):
         dts = parts[1].split(',')
         order = 'F' if len(parts) > 2 and parts[2] == 'F' else 'C'
         return tuple(np.array(a, dtype=np.dtype(dt), order=order) for a, dt in zip((im, bkg, rms), dts))
+    if variant == 'quantity':       # astropy Quantity maps in different, convertible units (mJy/beam image and
+        import astropy.units as u   # background, Jy/beam noise): the values of im and bkg are multiplied by 1000
+        return (np.array(im, dtype=f8) * 1000.0 * (u.mJy / u.beam), np.array(bkg, dtype=f8) * 1000.0 * (u.mJy / u.beam),
+                np.array(rms, dtype=f8) * (u.Jy / u.beam))
     if variant == 'f32-C':
         return tuple(np.ascontiguousarray(a, dtype=f4) for a in (im, bkg, rms))
     if variant == 'f64-F':
@@ -258,23 +262,28 @@ def prepare_inputs(im, bkg, rms, variant='f64-C'):
     return tuple(np.array(a, dtype=f8, order='C') for a in (im, bkg, rms))
 
 
-def call_find_islands(arrs, flood, seed, region=None, wcs=None):
+def call_find_islands(arrs, flood, seed, region=None, wcs=None, log=NULLLOG):
     """call the real find_islands on exactly these array objects; afterwards they must be bit-identical"""
     from AegeanTools.source_finder import find_islands
-    before = [a.tobytes() for a in arrs]
+    before = [np.asarray(a).tobytes() for a in arrs]
     with np.errstate(all='ignore'), warnings.catch_warnings():
         warnings.simplefilter('ignore')
         isl = find_islands(arrs[0], arrs[1], arrs[2], seed_clip=seed, flood_clip=flood,
-                           region=region, wcs=wcs, log=NULLLOG)
+                           region=region, wcs=wcs, log=log)
     canon = canon_impl(isl)
-    which = [n for n, a, b in zip(('im', 'bkg', 'rms'), arrs, before) if a.tobytes() != b]
+    which = [n for n, a, b in zip(('im', 'bkg', 'rms'), arrs, before) if np.asarray(a).tobytes() != b]
     if which:
         raise InputMutated(which, canon)
     return canon
 
 
-def run_impl(im, bkg, rms, flood, seed, region=None, wcs=None, variant='f64-C'):
-    return call_find_islands(prepare_inputs(im, bkg, rms, variant), flood, seed, region=region, wcs=wcs)
+def run_impl(im, bkg, rms, flood, seed, region=None, wcs=None, variant='f64-C', log=NULLLOG):
+    return call_find_islands(prepare_inputs(im, bkg, rms, variant), flood, seed, region=region, wcs=wcs, log=log)
+
+
+def log_of(c):
+    """the documented `log` argument: a Logger, or None ("For handling logs (or not)") for one case in 40"""
+    return None if int(case_key(c), 16) % 40 == 7 or c.get('log_none') else NULLLOG
 
 
 def variant_of(c):
@@ -430,8 +439,9 @@ def judge(ctx, prop, c, impl, model, record=True):
                      dict(site='driver', what='labelling-independence'))
             return ['model']
     if isinstance(impl, str):
-        ctx.fail('spec', dict(c, pretty=pretty(c)), f"find_islands raised {impl}; the property requires {want}",
-                 dict(site='find_islands', clause='raises', region=inside is not None))
+        ctx.fail('spec', dict(c, pretty=pretty(c)), f"find_islands{'(log=None)' if c.get('log_none') else ''} raised {impl}; "
+                 f"the property requires {want}",
+                 dict(site='find_islands', clause='raises', region=inside is not None, log_none=bool(c.get('log_none'))))
         return ['raises']
     probs = classify(impl, want, comps, im)
     if probs and record:
@@ -691,12 +701,15 @@ def evaluate(ctx, prop, cases, impl_fn=None, use_lean=True):
     for c, o in zip(cases, outs):
         im, bkg, rms, flood, seed, inside = arrays(c)
         try:
-            impl = impl_fn(c) if impl_fn else run_impl(im, bkg, rms, flood, seed, variant=variant_of(c))
+            impl = impl_fn(c) if impl_fn else run_impl(im, bkg, rms, flood, seed, variant=variant_of(c), log=log_of(c))
         except InputMutated as e:
             report_mutation(ctx, c, e)
             impl = e.canon
         except Exception as e:  # the property requires an answer for every valid image
             impl = f"{type(e).__name__}: {e}"
+        if not impl_fn and log_of(c) is None:
+            ctx.count('log=None')
+            c = dict(c, log_none=True)
         ctx.count('input:' + variant_of(c))
         model = None
         if use_lean:
@@ -825,6 +838,11 @@ def run(ctx):
     # mixed dtypes / byte orders with values a few float32 ulps from the thresholds (exact rational judge)
     near = [gen_near_case(rng, k) for k in range(320 if ctx.quick else 4800)]
     cases += [c for c in near if c is not None]
+    # (outside the documented ndarray interface, kept because it is cheap and quiet) astropy Quantity maps in mixed units
+    for k in range(25 if ctx.quick else 400):
+        c = gen_case(rng, small=(k % 2 == 0))
+        c['variant'] = 'quantity'
+        cases.append(c)
     # a history in one process: the first block runs in a fresh process state, then fits of big islands
     # (find_sources_in_image) are interleaved BETWEEN blocks of find_islands cases
     first = 300
@@ -843,6 +861,7 @@ def run(ctx):
     seed_monotone_pairs(ctx, rng, 300 if ctx.quick else 5000)
     shrink_failures(ctx)
     evaluate_large(ctx, large_cases(ctx))
+    finder_option_runs(ctx, rng, 7 if ctx.quick else 56)
     if not ctx.quick:
         finder_runs(ctx, rng, 30, with_region=False)
 
@@ -953,7 +972,7 @@ def fails(c, clause=None):
     im, bkg, rms, flood, seed, inside = arrays(c)
     want, comps = oracle(im, bkg, rms, flood, seed, inside)
     try:
-        impl = run_impl(im, bkg, rms, flood, seed, variant=variant_of(c))
+        impl = run_impl(im, bkg, rms, flood, seed, variant=variant_of(c), log=log_of(c))
     except InputMutated:
         return ['input-mutated']
     except Exception:
@@ -965,7 +984,7 @@ def shrink(c, still_fails):
     """greedy: crop rows/columns, then switch pixels off (image := background), while it still fails"""
     im, bkg, rms, flood, seed, inside = arrays(c)
 
-    keep = {k: c[k] for k in ('variant', 'history', 'carrier') if c.get(k)}
+    keep = {k: c[k] for k in ('variant', 'history', 'carrier', 'log_none') if c.get(k)}
     keep.setdefault('variant', variant_of(c))      # the shrunk grid is run with the same dtype / layout
 
     def mk(im, bkg, rms):
@@ -1055,7 +1074,9 @@ HDR = dict(CTYPE1='RA---SIN', CTYPE2='DEC--SIN', CRVAL1=150.0, CRVAL2=-30.0, CDE
            CRPIX1=10.0, CRPIX2=12.0, BMAJ=0.03, BMIN=0.03, BPA=0.0, BUNIT='Jy/beam')
 
 
-def finder_sources(path, flood, seed, mask=None):
+def finder_sources(path, flood, seed, mask=None, **options):
+    """find_sources_in_image(doislandflux=True) -> (components, {island number: (extent, pixel count)});
+    `options` are further documented keyword options (blank=, max_summits=, docov=, outfile=, …)"""
     from AegeanTools.source_finder import SourceFinder
     import contextlib
     import io
@@ -1064,7 +1085,7 @@ def finder_sources(path, flood, seed, mask=None):
     with np.errstate(all='ignore'), warnings.catch_warnings(), contextlib.redirect_stderr(io.StringIO()):
         warnings.simplefilter('ignore')
         srcs = sf.find_sources_in_image(path, innerclip=seed, outerclip=flood, rms=1.0, bkg=0.0, cores=1,
-                                        doislandflux=True, mask=mask)
+                                        doislandflux=True, mask=mask, **options)
     comps, isles = [], {}
     for s in srcs:
         if hasattr(s, 'extent'):
@@ -1090,11 +1111,15 @@ def finder_one(ctx, c, report=True):
     path = os.path.join(ctx.tmpdir(), f"finder_{case_key(c)}.fits")
     hdu.writeto(path, overwrite=True)
     want_all, comps_all = oracle(im, bkg, rms, flood, seed, None)
+    opts = dict(c.get('options') or {})
+    if opts.pop('outfile', None):
+        import io as _io
+        opts['outfile'] = _io.StringIO()
     try:
-        comps, isles = finder_sources(path, flood, seed)
+        comps, isles = finder_sources(path, flood, seed, **opts)
     except Exception as e:
-        ctx.fail('spec', dict(c, pretty=pretty(c)), f"find_sources_in_image raised {type(e).__name__}: {e}",
-                 dict(site='find_sources_in_image', clause='raises'))
+        ctx.fail('spec', dict(c, pretty=pretty(c)), f"find_sources_in_image({c.get('options') or ''}) raised {type(e).__name__}: {e}",
+                 dict(site='find_sources_in_image', clause='raises', options=sorted((c.get('options') or {}).items())))
         return
     want_set = {(w[0], len(w[1])) for w in want_all}
     got_set = set(isles.values())
@@ -1105,12 +1130,51 @@ def finder_one(ctx, c, report=True):
     if not bad and orphan:
         bad = f"components refer to islands {orphan} that are not reported"
     if bad:
-        ctx.fail('spec', dict(c, pretty=pretty(c)), bad, dict(site='find_sources_in_image', clause='component-origin'))
+        ctx.fail('spec', dict(c, pretty=pretty(c)), (f"options {c['options']}: " if c.get('options') else '') + bad,
+                 dict(site='find_sources_in_image', clause='component-origin', options=sorted((c.get('options') or {}).items())))
     ctx.count('finder-run')
+    for k, v in sorted((c.get('options') or {}).items()):
+        ctx.count(f'finder-option:{k}={v}')
     ctx.count('finder-components', len(comps))
     ctx.case(dict(kind='finder', H=c['H'], W=c['W'], islands=len(isles), components=len(comps)),
              nontrivial_key=('finder', case_key(c)) if len(comps_all) >= 2 and any(not k['seeded'] for k in comps_all) else None)
     return path, comps, isles
+
+
+def aligned_blob_image(rng):
+    """several compact sources that share image rows and / or columns (so that anything done to the image
+    between two islands of one run - e.g. blank=True - can hit a later island), in a non-square image"""
+    H, W = int(rng.integers(16, 25)), int(rng.integers(26, 41))
+    if rng.random() < 0.5:
+        H, W = W, H
+    yy, xx = np.mgrid[0:H, 0:W]
+    im = np.zeros((H, W))
+    k = int(rng.integers(3, 6))
+    r0 = rng.uniform(4, H - 5)
+    c0 = rng.uniform(4, W - 5)
+    for j in range(k):
+        if j % 2 == 0:       # same rows, spread over the columns
+            r, q = r0 + rng.uniform(-1.5, 1.5), rng.uniform(3, W - 4)
+        else:                # same columns, spread over the rows
+            r, q = rng.uniform(3, H - 4), c0 + rng.uniform(-1.5, 1.5)
+        amp = float(rng.choice([9.0, 14.0, 25.0])) * (1 if rng.random() < 0.8 else -1)
+        sg = rng.uniform(0.8, 1.6)
+        im += amp * np.exp(-0.5 * (((yy - r) / sg) ** 2 + ((xx - q) / sg) ** 2))
+    return im
+
+
+OPTION_SETS = [dict(blank=True), dict(blank=True, max_summits=1), dict(max_summits=1), dict(docov=False),
+               dict(blank=True, docov=False, outfile=True), dict(blank=True, docov=False), dict(outfile=True)]
+
+
+def finder_option_runs(ctx, rng, n):
+    """rarely used documented options of find_sources_in_image (products with blank=True): whatever the options, the
+    islands behind the reported components are the seeded flood groups of the GIVEN image"""
+    for k in range(n):
+        im = aligned_blob_image(rng)
+        opts = OPTION_SETS[(k + ctx.seed) % len(OPTION_SETS)]
+        c = mk_case('finder', im, np.zeros_like(im), np.ones_like(im), 4.0, 5.0, extra=dict(finder=True, options=opts))
+        finder_one(ctx, c)
 
 
 def finder_runs(ctx, rng, n, with_region):
